@@ -403,6 +403,10 @@ type ledgerWorld struct {
 	nstMode          bool     // history with native-restaking balance adjustments (UpdateNSTBalance), replayed by the model like every other op
 	betweenTried     bool     // the slash-between-records sub-scenario was injected in this history (dom_ledger_slashrecs.go)
 	forceBetween     bool     // the current (scripted) slash takes its infraction height from the operator's pending records
+	hi               int      // index of the history inside the run
+	stepNo           int      // steps taken in this history
+	concTried        bool     // the many-concurrent-undelegations sub-scenario was injected in this history (dom_ledger_concurrent.go)
+	quiet            int      // number of upcoming scripted ops after which no random blocks are inserted (a burst stays in its blocks)
 }
 
 func (w *ledgerWorld) emit(op, obs string) {
@@ -522,7 +526,7 @@ func domLedger(env *Env) error {
 		if nstMode {
 			env.Outcome("history.nst-adjustments")
 		}
-		w := &ledgerWorld{c: c, env: env, rng: rng, assets: cfg.Assets, nonce: 1, huge: huge, nstMode: nstMode,
+		w := &ledgerWorld{c: c, env: env, rng: rng, assets: cfg.Assets, nonce: 1, huge: huge, nstMode: nstMode, hi: hi,
 			gDep: map[string]*big.Int{}, gWd: map[string]*big.Int{}, gSl: map[string]*big.Int{}}
 		if nstMode {
 			// the staker-index store is iterated in byte order of "…/0x<hex nonce>": start the nonces where
@@ -683,6 +687,7 @@ func domLedger(env *Env) error {
 			env.Sample(strings.Join(tail, " ; "))
 		}
 	}
+	ledgerConcurrencyCoverage(env, n)
 	return nil
 }
 
@@ -809,7 +814,21 @@ func (w *ledgerWorld) step(prev *ledgerSnap, kinds map[string]int) *ledgerSnap {
 		w.betweenTried = true
 		w.forced = append(w.forced, w.scenarioSlashBetweenRecords(prev)...)
 	}
+	w.stepNo++
+	if !w.concTried && len(w.forced) == 0 && (r.Chance(1, 30) || (w.hi%2 == 0 && w.stepNo >= 6)) {
+		// directed sub-scenario (dom_ledger_concurrent.go), once per history: a burst of 8..130 undelegations of
+		// ONE staker and asset (distinct nonces, one or two operators, in one block or spread over a few) so
+		// that many records of one (staker, asset) are pending at the same time
+		w.concTried = true
+		w.forced = append(w.forced, w.scenarioManyConcurrent(prev)...)
+		w.quiet = len(w.forced)
+	}
+	quietNow := false
 	if len(w.forced) > 0 {
+		if w.quiet > 0 {
+			w.quiet--
+			quietNow = true
+		}
 		f := w.forced[0]
 		w.forced = w.forced[1:]
 		native = false
@@ -964,6 +983,14 @@ func (w *ledgerWorld) step(prev *ledgerSnap, kinds map[string]int) *ledgerSnap {
 				cands = append(cands, k)
 			}
 		}
+		// every third random undelegation piles up on the (staker, asset) that already has the most pending
+		// records (small amounts, so that the position lasts): the number of records in flight grows
+		pile := false
+		if forcedKind < 0 && len(prev.recs) > 0 && r.Chance(1, 3) {
+			if k := pileUpTarget(prev); k != "" {
+				cands, pile = []string{k}, true
+			}
+		}
 		var near *big.Int
 		if forcedKind < 0 && len(cands) > 0 && r.Chance(9, 10) {
 			f := strings.Split(cands[r.Intn(len(cands))], "/")
@@ -995,15 +1022,28 @@ func (w *ledgerWorld) step(prev *ledgerSnap, kinds map[string]int) *ledgerSnap {
 			}
 		}
 		x := w.amount(near)
+		if pile && near != nil && near.Sign() > 0 {
+			x = sdkmath.NewInt(int64(1 + r.Intn(3)))
+			if r.Chance(1, 2) {
+				x = sdkmath.NewIntFromBigInt(new(big.Int).Add(new(big.Int).Div(near, big.NewInt(int64(8+r.Intn(32)))), big.NewInt(1)))
+			}
+			w.env.Outcome("undelegate.pile-up")
+		}
 		if forcedAmt > 0 {
 			x = sdkmath.NewInt(forcedAmt)
 		}
+		// the staker's position in the pool the request names (whoever chose the request: a random pick, a
+		// candidate, a scripted op): C03's acceptance clause is judged on every request that has one
+		pos := positionOf(prev, sid, asset, op.String())
+		inFlight := pendingOf(prev, sid, asset)
 		nonce := w.nonce
 		w.nonce++
 		hash := common.BytesToHash(detBytes(uint64(nonce), "tx", int(c.Header.Height)))
 		var err error
+		via := "keeper"
 		if w.usePC(lz, &x) { // the record is keyed by the hash of the EVM transaction
 			hash = xbNextTxHash()
+			via = "precompile"
 			err = w.pcDelegate(true, nonce, saddr, aaddr, op, x)
 		} else {
 			err = c.CachedDo(func(ctx sdk.Context) error {
@@ -1019,14 +1059,15 @@ func (w *ledgerWorld) step(prev *ledgerSnap, kinds map[string]int) *ledgerSnap {
 				held = 1
 			}
 			w.env.Outcome(fmt.Sprintf("undelegate.held=%d", held))
+			// holds are placed by dogfood's AfterUndelegationStarted hook for operators in the validator set; the
+			// split by entry point is printed because the two entry points do not share one keeper object
+			// (app.go hands the delegation keeper to the precompiles BY VALUE before SetHooks is called)
+			if w.isCurrentValidator(op) {
+				w.env.Outcome(fmt.Sprintf("undelegate.from-validator.via-%s.held=%d", via, held))
+			}
 		}
 		finish("undelegate", fmt.Sprintf("ledger.undelegate %s %s %s %s %d %s %d", sid, asset, op, x, nonce, hash.String(), held), err, nil)
-		if err == nil && near != nil { // C03 acceptance is checked by the absence of rejections within the position
-			w.env.Eval("C03.accept")
-		}
-		if err != nil && near != nil && x.IsPositive() && x.BigInt().Cmp(near) <= 0 && !ledgerBoundPanic(err) {
-			w.env.Violate("C03.accept", "undelegate-rejected-within-position", fmt.Sprintf("undelegation of %s within position %s rejected: %v", x, near, err), w.hist)
-		}
+		w.monitorUndelegate(prev, after, sid, asset, op.String(), x, pos, inFlight, nonce, hash.String(), err)
 	case 5: // associate: mostly a (staker, operator) pair that already has delegations - preferably in several assets
 		if ks := sortedKeys(prev.deleg); forcedKind < 0 && len(ks) > 0 && !native && r.Chance(3, 4) {
 			// pairs holding delegations in several assets first (the association loop visits each of them)
@@ -1084,7 +1125,7 @@ func (w *ledgerWorld) step(prev *ledgerSnap, kinds map[string]int) *ledgerSnap {
 		after = w.blocks(prev, kinds, 1+r.Intn(4))
 		return after
 	}
-	if r.Chance(1, 4) {
+	if !quietNow && r.Chance(1, 4) {
 		after = w.blocks(after, kinds, 1+r.Intn(3))
 	}
 	return after
